@@ -392,6 +392,36 @@ pub fn mutate_doc_column(rng: &mut Rng, bytes: &[u8], other: &[u8]) -> Option<(V
 /// Make the stored heads of a document chunk agree with the changes it reconstructs to,
 /// so that a mutated document passes head verification. Returns None when the mutated
 /// bytes do not even load without verification.
+/// A document chunk whose stored head list lacks its last head (the matching entry of the head-index
+/// suffix is removed too, lengths and checksum are recomputed). Needs at least two heads.
+pub fn drop_head(bytes: &[u8]) -> Option<Vec<u8>> {
+    let l = doc_layout(bytes)?;
+    if l.heads_count < 2 {
+        return None;
+    }
+    // the suffix holds one uleb index per head
+    let mut at = l.suffix_start;
+    let mut idx_ends = vec![];
+    for _ in 0..l.heads_count {
+        let (_, a) = read_uleb(bytes, at)?;
+        at = a;
+        idx_ends.push(a);
+    }
+    if at != l.chunk.end {
+        return None;
+    }
+    let keep = l.heads_count - 1;
+    let mut data = bytes[l.chunk.data_start..l.actors_end].to_vec();
+    write_uleb(keep as u64, &mut data);
+    data.extend_from_slice(&bytes[l.heads_start..l.heads_start + 32 * keep]);
+    data.extend_from_slice(&bytes[l.heads_start + 32 * l.heads_count..l.suffix_start]);
+    data.extend_from_slice(&bytes[l.suffix_start..idx_ends[keep - 1]]);
+    let mut out = bytes[..l.chunk.start].to_vec();
+    out.extend_from_slice(&chunks::make_chunk(0, &data));
+    out.extend_from_slice(&bytes[l.chunk.end..]);
+    Some(out)
+}
+
 pub fn fix_heads(bytes: &[u8], enc: TextEncoding) -> Option<Vec<u8>> {
     let l = doc_layout(bytes)?;
     let d = crate::fw::catch(|| AutoCommit::load_with_options(bytes, automerge::LoadOptions::new().text_encoding(enc).verification_mode(automerge::VerificationMode::DontCheck))).ok()?.ok()?;
